@@ -9,6 +9,7 @@ package forwarder
 import (
 	"net"
 	"slices"
+	"unicode/utf8"
 
 	"github.com/prometheus/client_golang/prometheus"
 	"github.com/prometheus/client_golang/prometheus/promauto"
@@ -88,6 +89,11 @@ func addr2Host(addr string) string {
 
 	if ip := net.ParseIP(host); ip != nil && (ip.IsLoopback() || ip.IsUnspecified()) {
 		return "localhost"
+	}
+
+	// The host comes from the client's request; prometheus panics on label values that are not valid UTF-8.
+	if !utf8.ValidString(host) {
+		return "invalid"
 	}
 
 	return host
